@@ -85,3 +85,19 @@ PROPS["C01"] = {
     "engine_flags": ["-qtimeout", "2500"],
     "timeout_quick": 500, "timeout_thorough": 3000,
 }
+
+PROPS["C04"] = {
+    "files": ["privval/file.go", "libs/tempfile/tempfile.go"],
+    "groups": [
+        {"dir": "privval",
+         "quick": ["VP_C04_Signer_k2", "VP_C04_Signer_k2_symts", "VP_C04_Signer_k2_crash1"],
+         "thorough": ["VP_C04_Signer_k3_h2", "VP_C04_Signer_k2_crash1_symts", "VP_C04_Signer_k3_crash1", "VP_C04_Signer_k3_crash2"]},
+    ],
+    "bounds": {
+        "signer (H1)": "real FilePV on the modelled file system; k = 2 (thorough 3) arbitrary requests: prevote / precommit / proposal, height 1 (thorough 1..2), round 0..1, block A/B/nil, two timestamps (or a symbolic timestamp travelling through the real sign-bytes codec), optional restart (LoadFilePV) after every request",
+        "crashes": "one (thorough two) simulated crash at any file operation of the sign-state save (create, write with a torn prefix, rename, remove), surviving prefix of an unsynced tail chosen at reboot, then LoadFilePV on what survived",
+    },
+    "stubs": ["file system model (symgo/vfs.go): O_SYNC writes durable, rename/remove atomic and durable", "tmjson = identity on Go values with an opaque token (a torn token does not decode)", "ed25519 ideal when sign bytes are symbolic, real otherwise"],
+    "outside": ["remote signers (privval/signer_*)", "directory-entry reordering across rename", "the consensus-side WAL ordering (H2: checked with the consensus step harness when present)"],
+    "timeout_quick": 420, "timeout_thorough": 3000,
+}
